@@ -28,7 +28,7 @@ ASSUMPTIONS = [
     "factor pairs include both-below-one and both-above-one, ranges include negative ones (RainbowDQN v_min)",
     "learning-rate effect is read from param_groups of the optimizer objects the agent holds after the call",
 ]
-REQUIRED_COUNTERS = ["mutations_checked", "other_agents_unchanged_checks", "lr_group_checks", "variates_recorded"]
+REQUIRED_COUNTERS = ["mutations_checked", "other_agents_unchanged_checks", "lr_group_checks", "variates_recorded", "effect_twin_checks"]
 CASE_TIMEOUT_S = 1500
 
 
@@ -73,9 +73,17 @@ def cases(tier, seed):
                 # several learning rates configured with the SAME value and range (e.g. parsed from one config entry)
                 "equal_lrs": bool(len(LR_NAMES[algo]) > 1 and (i // 4) % 2 == 0),
                 "int_literal_bounds": bool(i % 3 == 1),
+                # population of AgentWrapper-wrapped agents (RSNorm): mutations then write through the wrapper
+                "wrapped": bool((i // 2) % 4 == 1),
+                # a float hyperparameter that learn() consumes (gamma) configured with an ordinary float range
+                "gamma_range": bool(i % 3 != 1 and (i // 3) % 2 == 0),
                 "seed": int(rng.integers(1 << 30)),
             }
         )
+    # directed: the support bound of the distributional learner as the ONLY configured hyperparameter (every mutation hits it)
+    out.append({"algo": "RainbowDQN", "how": "population_shared_cfg", "pop": 2, "rounds": 3, "cfg_seed": 6, "corner": "none",
+                "factors": "usual", "negative_range": True, "learn_first": True, "equal_lrs": False, "int_literal_bounds": False,
+                "wrapped": False, "gamma_range": False, "only": "v_min", "seed": 606})
     return out
 
 
@@ -158,6 +166,16 @@ def _make_cfg(case, algo):
         params["gamma"] = RLParameter(min=0, max=1, shrink_factor=sh, grow_factor=gr)
         decl["gamma"] = (0, 1, sh, gr, float)
         init["gamma"] = float(rng.uniform(0.3, 0.99))
+    if case.get("gamma_range") and "gamma" not in params and algo not in ("NeuralUCB", "NeuralTS"):
+        lo = float(rng.uniform(0.3, 0.6))
+        hi = float(rng.uniform(0.9, 0.999))
+        sh, gr = _factors(rng, style)
+        params["gamma"] = RLParameter(min=lo, max=hi, shrink_factor=sh, grow_factor=gr)
+        decl["gamma"] = (lo, hi, sh, gr, float)
+        init["gamma"] = float(rng.uniform(lo, hi))
+    if case.get("only") in params:
+        params = {case["only"]: params[case["only"]]}
+        decl = {case["only"]: decl[case["only"]]}
     cfg = HyperparameterConfig(**params)
     cfg._vf_declared = decl
     return cfg, init
@@ -254,6 +272,164 @@ def _stepped_lr_check(rec, agent, case, algo, how, target, rnd):
                 return
 
 
+# ---------------------------------------------------------------- "the new value is what the agent subsequently uses"
+EFFECT_TARGETS = ("gamma", "batch_size", "lr", "lr_actor", "lr_critic", "v_min")  # hyperparameters that learn() itself consumes
+EFFECT_BUDGET = 6  # twin comparisons per case
+
+
+def _flat(x):
+    import torch
+
+    if x is None:
+        return []
+    if isinstance(x, dict):
+        return [v for k in sorted(x, key=str) for v in _flat(x[k])]
+    if isinstance(x, (list, tuple)):
+        return [v for y in x for v in _flat(y)]
+    if isinstance(x, torch.Tensor):
+        return [float(v) for v in x.detach().reshape(-1).tolist()]
+    if isinstance(x, np.ndarray):
+        return [float(v) for v in x.reshape(-1).tolist()]
+    try:
+        return [float(x)]
+    except Exception:
+        return []
+
+
+def _build_twin(a, algo, init, maker=None):
+    """A NEW agent constructed with the hyperparameter values the agent reports now (everything else as configured),
+    given the agent's weights, optimizer moments and update counter: by construction an agent that uses these values."""
+    import copy
+
+    names = list(a.registry.hp_config.names())
+    kw = dict(init)
+    kw.setdefault("batch_size", 8)
+    kw.update({n: getattr(a, n) for n in names})
+    if maker is not None:
+        twin = maker(kw)  # the route the population itself was built by (create_population: INIT_HP dictionary)
+    else:
+        o, sp, extra = _spaces_and_extra(algo, kw)
+        twin = type(a)(o, sp, index=a.index, **kw, **extra)
+    import torch
+
+    from vf import walk
+
+    def mods(v):
+        if isinstance(v, torch.nn.Module):
+            return [v]
+        if isinstance(v, dict):
+            return [m for k in v for m in mods(v[k])]
+        if isinstance(v, (list, tuple)):
+            return [m for x in v for m in mods(x)]
+        return []
+
+    with torch.no_grad():
+        # every tensor leaf of every network (also those a functional / detached target keeps out of state_dict())
+        for name, net in a.evolvable_attributes(networks_only=True).items():
+            for ms, mt in zip(mods(net), mods(getattr(twin, name))):
+                lt = walk.module_leaves(mt)
+                for k, t in walk.module_leaves(ms).items():
+                    if k in lt and lt[k].shape == t.shape:
+                        lt[k].copy_(t)
+        # tensors / arrays the agent keeps next to its networks (bandit regularisation anchor, confidence matrix, ...)
+        for attr, v in list(vars(a).items()):
+            if isinstance(v, torch.Tensor) and isinstance(getattr(twin, attr, None), torch.Tensor) and getattr(twin, attr).shape == v.shape:
+                getattr(twin, attr).copy_(v)
+            elif isinstance(v, np.ndarray) and isinstance(getattr(twin, attr, None), np.ndarray) and getattr(twin, attr).shape == v.shape:
+                np.copyto(getattr(twin, attr), v)
+    for cfg in a.registry.optimizers:
+        src, dst = getattr(a, cfg.name), getattr(twin, cfg.name)
+        so = src.optimizer if isinstance(src.optimizer, list) else [src.optimizer]
+        do = dst.optimizer if isinstance(dst.optimizer, list) else [dst.optimizer]
+        for s_, d_ in zip(so, do):
+            sd = d_.state_dict()  # the twin keeps the settings it was constructed with, it only inherits the moments
+            sd["state"] = copy.deepcopy(s_.state_dict()["state"])
+            d_.load_state_dict(sd)
+    if hasattr(a, "learn_counter"):
+        twin.learn_counter = copy.deepcopy(a.learn_counter)
+    return twin
+
+
+def _learn_payload(agent, algo, seed):
+    """Data for one learn() call that can be replayed on another agent (plain containers / numpy)."""
+    from vf import zoo
+
+    if algo == "PPO":
+        return ("rollout", zoo.ppo_rollout(agent, T=4, num_envs=3, seed=seed))
+    if algo == "IPPO":
+        return ("rollout", zoo.ippo_rollout(agent, T=4, num_envs=3, seed=seed))
+    a = zoo.unwrap(agent)
+    return ("batch", zoo.make_batch(a, seed=seed), zoo.make_batch(a, seed=seed + 7))
+
+
+def _raw_learn(x, algo, payload, seed):
+    """The algorithm class's own learn() (an AgentWrapper's replacement of the bound method is by-passed on both sides)."""
+    import copy
+    import random
+
+    import torch
+
+    from vf import zoo
+
+    torch.manual_seed(seed)
+    np.random.seed(seed % (2**31))
+    random.seed(seed)
+    cls = type(x)
+    if payload[0] == "rollout":
+        return cls.learn(x, copy.deepcopy(payload[1]))
+    exp = zoo.as_experiences(x, payload[1])
+    if algo == "RainbowDQN":
+        exp["idxs"] = torch.arange(payload[1]["n"]).reshape(-1, 1)
+        return cls.learn(x, exp, n_experiences=zoo.as_experiences(x, payload[2]))
+    return cls.learn(x, exp)
+
+
+def _params_of(x):
+    import torch
+
+    from vf import walk
+
+    def mods(v):
+        if isinstance(v, torch.nn.Module):
+            return [v]
+        if isinstance(v, dict):
+            return [m for k in v for m in mods(v[k])]
+        if isinstance(v, (list, tuple)):
+            return [m for y in v for m in mods(y)]
+        return []
+
+    out = {}
+    for name, net in x.evolvable_attributes(networks_only=True).items():
+        for i, m in enumerate(mods(net)):
+            for k, v in walk.module_leaves(m).items():
+                out[f"{name}[{i}].{k}"] = v.detach().clone()
+    return out
+
+
+def _twin_compare(a, algo, init, seed, maker=None):
+    """-> None when the agent and its constructor twin behave alike on one learn step, else a short description."""
+    import torch
+
+    payload = _learn_payload(a, algo, seed)
+    twin = _build_twin(a, algo, init, maker)
+    r_twin = _flat(_raw_learn(twin, algo, payload, seed))
+    r_self = _flat(_raw_learn(a, algo, payload, seed))
+    if len(r_twin) != len(r_self):
+        return {"what": "learn_returns_differ_in_shape", "agent": r_self[:4], "twin": r_twin[:4]}
+    for u, v in zip(r_self, r_twin):
+        if not (abs(u - v) <= 1e-6 + 1e-5 * max(abs(u), abs(v))) and not (u != u and v != v):
+            return {"what": "learn_returns_differ", "agent": r_self[:4], "twin": r_twin[:4]}
+    pa, pt = _params_of(a), _params_of(twin)
+    for k in pa:
+        if k not in pt or pa[k].shape != pt[k].shape:
+            return {"what": "parameters_differ_in_shape", "leaf": k}
+        if pa[k].is_floating_point():
+            d = (pa[k] - pt[k]).abs()
+            if bool((d > 1e-6 + 1e-5 * pa[k].abs()).any()) and bool(torch.isfinite(pa[k]).all()):
+                return {"what": "updated_weights_differ", "leaf": k, "max_abs_diff": float(d.max())}
+    return None
+
+
 def _snapshot(pop, names):
     from vf import zoo
 
@@ -264,14 +440,49 @@ def _snapshot(pop, names):
     return snap
 
 
+def _spaces_and_extra(algo, kw):
+    from vf import zoo
+
+    extra = {}
+    if algo in zoo.MULTI:
+        ids = list(zoo.MA_AGENT_IDS)
+        o = [zoo.obs_space("vector") for _ in ids]
+        a = [zoo.act_space(zoo.default_act_kind(algo)) for _ in ids]
+        extra["agent_ids"] = ids
+    else:
+        o, a = zoo.obs_space("vector"), zoo.act_space(zoo.default_act_kind(algo))
+        if algo == "RainbowDQN":
+            extra = {k: v for k, v in dict(num_atoms=11, v_min=-5.0, v_max=5.0).items() if k not in kw}
+    return o, a, extra
+
+
+_MAKER = {}  # how one more agent of the current case's population is constructed (None: plain constructor)
+
+
 def _build_population(case, algo, cfg, init):
     from vf import zoo
+
+    _MAKER.clear()
 
     cls = zoo.algo_cls(algo)
     how = case["how"]
     n = case["pop"]
     kw = dict(init)
     kw.setdefault("batch_size", 8)
+    if case.get("wrapped") and algo not in zoo.MULTI:
+        from agilerl.wrappers.agent import RSNorm
+
+        o, a, extra = _spaces_and_extra(algo, kw)
+        pop = cls.population(n, o, a, wrapper_cls=RSNorm, hp_config=cfg, **kw, **extra)
+        how = "population_shared_cfg+RSNorm"
+        if case["how"] == "after_selection":
+            from agilerl.hpo.tournament import TournamentSelection
+
+            for i, ag in enumerate(pop):
+                zoo.unwrap(ag).fitness.append(float(i))
+            _, pop = TournamentSelection(2, True, n, 1).select(pop)
+            how += "+after_selection"
+        return pop, how
     if algo in zoo.MULTI:
         ids = list(zoo.MA_AGENT_IDS)
         o = [zoo.obs_space("vector") for _ in ids]
@@ -288,6 +499,7 @@ def _build_population(case, algo, cfg, init):
         if how == "create_population":
             try:
                 pop = _via_create_population(algo, o, a, cfg, init, n)
+                _MAKER["f"] = lambda kw, _o=o, _a=a: _via_create_population(algo, _o, _a, None, kw, 1)[0]
             except Exception:
                 pop = cls.population(n, o, a, hp_config=cfg, **kw, **extra)
                 how = "population_shared_cfg(create_population_failed)"
@@ -307,7 +519,7 @@ def _via_create_population(algo, o, a, cfg, init, n):
 
     INIT_HP = {
         "BATCH_SIZE": init.get("batch_size", 8), "LR": init.get("lr", 1e-3), "LR_ACTOR": init.get("lr_actor", 1e-3),
-        "LR_CRITIC": init.get("lr_critic", 1e-3), "LEARN_STEP": init.get("learn_step", 2), "GAMMA": 0.99, "TAU": 0.01,
+        "LR_CRITIC": init.get("lr_critic", 1e-3), "LEARN_STEP": init.get("learn_step", 2), "GAMMA": init.get("gamma", 0.99), "TAU": 0.01,
         "DOUBLE": False, "N_STEP": 3, "NUM_ATOMS": 11, "V_MIN": init.get("v_min", -5.0), "V_MAX": 5.0, "BETA": 0.4, "PRIOR_EPS": 1e-6,
         "NOISE_STD": 0.5, "COMBINED_REWARD": False, "GAE_LAMBDA": 0.95, "ACTION_STD_INIT": 0.0, "CLIP_COEF": 0.2,
         "ENT_COEF": 0.01, "VF_COEF": 0.5, "MAX_GRAD_NORM": 0.5, "TARGET_KL": None, "UPDATE_EPOCHS": 1, "POLICY_FREQ": 2,
@@ -344,6 +556,7 @@ def run_case(case):
     declared = dict(cfg._vf_declared)
     changed_any = bound_or_lr = False
     m = agentops.make_mutations("rl_hp", seed=case["seed"] % 100000)
+    effect_budget = EFFECT_BUDGET
     for rnd in range(case["rounds"]):
         if case.get("learn_first") and rnd in (0, 2):
             try:
@@ -370,6 +583,21 @@ def run_case(case):
                             carried={n: [repr(x) for x in specs.get(n, ())] for n in bad[:3]},
                             configured={n: [repr(x) for x in declared.get(n, ())] for n in bad[:3]})
                 specs = dict(declared)  # judge the mutation against what was configured
+            # control for the effect monitor: BEFORE the mutation the agent must behave like an agent constructed with
+            # its current values (if it does not, hidden state the twin does not carry is in play: no verdict afterwards)
+            control_ok = False
+            if effect_budget > 0:
+                try:
+                    control_ok = _twin_compare(a, algo, init, case["seed"] % 9973 + 31 * rnd + k, _MAKER.get("f")) is None
+                    rec.hit("effect_twin_controls")
+                    if not control_ok:
+                        rec.hit("effect_twin_control_disagrees(info)")
+                        rec.hit(f"effect_twin_control_disagrees(info):{algo}:{how}")
+                except CaseTimeout:
+                    raise
+                except Exception as e:
+                    rec.hit("effect_twin_failed(info)")
+                    rec.extra["effect_twin_failed"] = f"{type(e).__name__}: {str(e)[:120]}"
             log = []
             real = R.torch
             R.torch = _TorchProxy(real, log)
@@ -459,6 +687,20 @@ def run_case(case):
             # step hook that records which optimizer objects learn() really steps
             if target is not None and str(target).startswith("lr") and case.get("learn_first"):
                 _stepped_lr_check(rec, pop[k], case, algo, how, target, rnd)
+            if control_ok and target in EFFECT_TARGETS:
+                effect_budget -= 1
+                try:
+                    diff = _twin_compare(a, algo, init, case["seed"] % 9967 + 37 * rnd + k, _MAKER.get("f"))
+                    rec.hit("effect_twin_checks")
+                    rec.hit("effect_twin_checks:" + str(target))
+                    if diff is not None:
+                        rec.violate("hp_effect", "agent_does_not_learn_like_an_agent_constructed_with_the_new_value", site, algo=algo,
+                                    name=target, old=before[k][target], new=after[k][target], how=how, **diff)
+                except CaseTimeout:
+                    raise
+                except Exception as e:
+                    rec.hit("effect_twin_failed(info)")
+                    rec.extra["effect_twin_failed"] = f"{type(e).__name__}: {str(e)[:120]}"
             # nobody else moved
             for j in range(len(pop)):
                 if j == k:
